@@ -1835,12 +1835,16 @@ fn scripted(ses: &mut Session, sut: &mut S, literal: bool) {
         }
         let o = ses.step(sut, &format!("add sender=5 now={} tip=0 tip2=0 stage={tgt} members={} pg=100", T0 + SEC, range_members(201, 230, kind)));
         expect(ses, &o, "ok", format!("{k}:big:add30:ok"));
+        // the crates' page sizes are configuration (25 / 100 today), not part of the property: recognise "a default page shorter than
+        // the list" and "an explicit huge limit capped above the default" without pinning the numbers
         let o = ses.step(sut, &format!("page stage={tgt} after=- limit=-"));
-        if primary_part(&o).matches(':').count() == 25 {
+        let dflt = primary_part(&o).matches(':').count();
+        if dflt > 0 && dflt < 131 {
             ses.mark(format!("{k}:big:page-default"));
         }
         let o = ses.step(sut, &format!("page stage={tgt} after=- limit=1000"));
-        if primary_part(&o).matches(':').count() == 100 {
+        let mx = primary_part(&o).matches(':').count();
+        if mx > dflt {
             ses.mark(format!("{k}:big:page-max"));
         }
         ses.step(sut, &format!("page stage={tgt} after=199 limit=100"));
